@@ -390,7 +390,12 @@ impl Unit {
             )?;
             w.write_u8(self.address_size())?;
         } else if self.version() == 5 {
-            w.write_u8(constants::DW_UT_compile.0)?;
+            let unit_type = if self.entries[self.root.index].tag == constants::DW_TAG_partial_unit {
+                constants::DW_UT_partial
+            } else {
+                constants::DW_UT_compile
+            };
+            w.write_u8(unit_type.0)?;
             w.write_u8(self.address_size())?;
             w.write_offset(
                 abbrev_offset.0,
@@ -2242,6 +2247,7 @@ pub(crate) mod convert {
             let mut root_entry = unit.null_entry();
             unit.read_entry(&mut root_entry)?
                 .ok_or(read::Error::MissingUnitDie)?;
+            unit.set_root_tag(root_entry.tag)?;
             Ok(Some((unit, root_entry)))
         }
     }
@@ -2358,6 +2364,7 @@ pub(crate) mod convert {
             let mut root_entry = unit.null_entry();
             unit.read_entry(&mut root_entry)?
                 .ok_or(read::Error::MissingUnitDie)?;
+            unit.set_root_tag(root_entry.tag)?;
             Ok((unit, root_entry))
         }
     }
@@ -2544,6 +2551,21 @@ pub(crate) mod convert {
             filter: FilterUnitSection<'a, R>,
         ) -> ConvertResult<ConvertSplitUnitSection<'a, R>> {
             ConvertSplitUnitSection::new_with_filter(self, filter)
+        }
+
+        /// Set the tag of the root DIE of the converted unit.
+        ///
+        /// Partial units are converted to partial units. Type units are not supported.
+        fn set_root_tag(&mut self, tag: constants::DwTag) -> ConvertResult<()> {
+            match tag {
+                constants::DW_TAG_partial_unit => {
+                    let root = self.unit.root();
+                    self.unit.get_mut(root).tag = tag;
+                }
+                constants::DW_TAG_type_unit => return Err(ConvertError::UnsupportedUnitType),
+                _ => {}
+            }
+            Ok(())
         }
 
         /// Start converting the line number program for this unit.
